@@ -122,6 +122,66 @@ def digits (n : Nat) : List Char := digitsAux (n + 1) n []
 /-- how DuckDB's DESCRIBE prints a decimal type -/
 def renderDecimal (p s : Nat) : List Char := decimalWord ++ ('(' :: (digits p ++ [','] ++ digits s ++ [')']))
 
+/-! ### declared Snowflake column / cast types (transforms.integer_precision, float_to_double, timestamp_ntz, semi_structured_types + sqlglot's
+    type map, modelled) and what description must say about them -/
+
+/-- a declared Snowflake data type, with the parameters that matter for description -/
+inductive Decl
+  | number (p s : Option Nat)        -- NUMBER / DECIMAL / NUMERIC [(p [, s])]
+  | intFamily                        -- INT, INTEGER, BIGINT, SMALLINT, TINYINT, BYTEINT
+  | floatFamily                      -- FLOAT, FLOAT4, FLOAT8, DOUBLE, DOUBLE PRECISION, REAL
+  | text                             -- VARCHAR[(n)], CHAR[(n)], CHARACTER[(n)], STRING, TEXT
+  | boolean | date
+  | time                             -- TIME[(p)]
+  | tsNtz                            -- TIMESTAMP_NTZ[(p)]
+  | tsPlain (p : Option Nat)         -- TIMESTAMP[(p)], DATETIME[(p)]
+  | tsTz                             -- TIMESTAMP_TZ[(p)]
+  | binary                           -- BINARY, VARBINARY
+  | variant                          -- VARIANT, OBJECT, ARRAY
+deriving DecidableEq, Repr
+
+/-- the DuckDB type the rewritten statement declares -/
+def toDuck : Decl → List Char
+  | .number none _ => "BIGINT".toList                     -- integer_precision: a parameterless NUMBER becomes BIGINT
+  | .number (some p) s => renderDecimal p (s.getD 0)      -- NUMBER(p) keeps its precision: DECIMAL(p,0)
+  | .intFamily => "BIGINT".toList
+  | .floatFamily => "DOUBLE".toList
+  | .text => "VARCHAR".toList
+  | .boolean => "BOOLEAN".toList
+  | .date => "DATE".toList
+  | .time => "TIME".toList
+  | .tsNtz => "TIMESTAMP".toList                          -- timestamp_ntz: every TIMESTAMP_NTZ(p) becomes a plain (µs) TIMESTAMP
+  | .tsPlain none => "TIMESTAMP".toList
+  | .tsPlain (some p) =>                                  -- sqlglot/DuckDB: TIMESTAMP(p) picks the unit by precision
+    if p = 0 then "TIMESTAMP_S".toList else if p ≤ 3 then "TIMESTAMP_MS".toList else if p ≤ 6 then "TIMESTAMP".toList else "TIMESTAMP_NS".toList
+  | .tsTz => "TIMESTAMP WITH TIME ZONE".toList
+  | .binary => "BLOB".toList
+  | .variant => "JSON".toList
+
+/-- (type, precision, scale) that description must report for a declared type -/
+def declaredCore : Decl → SfType × Option Nat × Option Nat
+  | .number p s => (.fixed, some (p.getD 38), some (if p.isSome then s.getD 0 else 0))
+  | .intFamily => (.fixed, some 38, some 0)
+  | .floatFamily => (.real, none, none)
+  | .text => (.text, none, none)
+  | .boolean => (.boolean, none, none)
+  | .date => (.date, none, none)
+  | .time => (.time, some 0, some 9)
+  | .tsNtz | .tsPlain _ => (.timestamp_ntz, some 0, some 9)
+  | .tsTz => (.timestamp_tz, some 0, some 9)
+  | .binary => (.binary, none, none)
+  | .variant => (.variant, none, none)
+
+def ColumnInfo.core (ci : ColumnInfo) : SfType × Option Nat × Option Nat := (ci.type, ci.precision, ci.scale)
+
+/-- what the code yields for a declared type: `none` = description raises -/
+def describedCore (d : Decl) : Option (SfType × Option Nat × Option Nat) := (asColumnInfo (toDuck d)).map ColumnInfo.core
+
+/-- finding region among the declared types: TIMESTAMP(p) / DATETIME(p) with p ≤ 3 become TIMESTAMP_S / TIMESTAMP_MS, which the type table lacks -/
+def declFinding : Decl → Option String
+  | .tsPlain (some p) => if p ≤ 3 then some "C06/type-unmapped" else none
+  | _ => none
+
 /-! ### the Python type of a fetched value, per DuckDB type (pyarrow `to_pylist`, modelled) -/
 
 inductive PyType | int | decimal | float | str | date | time | datetime | datetimeTz | bytes | bool
